@@ -9,6 +9,7 @@ V: Verify of honest tokens of types 1 and 5 and of altered ones: each bit of
    verdict = the independent FullEvaluate comparison over the concatenated
    bytes, honest accepted, listed alterations rejected."""
 import vlib
+from checks import ages_common as ag
 from checks import verdicts_common as vc
 from checks import issuance_common as ic
 
@@ -20,7 +21,9 @@ def run(ctx):
         ctx.model_check("MC_Issuance", ctx.pick("MC_Issuance_t%d.cfg" % t, "MC_Issuance_t%d_thorough.cfg" % t))
     n, cases, kinds = ic.run(ctx, "C10", ["verify"])
     vn, vcases, vdepth = vc.run(ctx, ['t1verify', 't5verify'])   # Verdicts.tla: every history of presentations on one long-lived object
+    an, acases = ag.run(ctx, ['t1verify', 't5verify'])   # Ages.tla: every schedule of phases on one long-lived object, each phase scaled to n operations
     return ctx.finish({
+        **ag.coverage(an, acases),
         "traces_validated_against_impl": n,
         "evaluations": len(cases),
         "distinct_nontrivial": ic.distinct(cases),
@@ -36,6 +39,8 @@ def run(ctx):
 
 
 def replay(ctx, path):
+    if vlib.json.load(open(path)).get("family") == "ages":
+        return ag.replay(ctx, path)
     if vlib.json.load(open(path)).get("family") == "verdicts":
         return vc.replay(ctx, path)
     return ctx.replay_case(path, "issuance", "Trace_Issuance", cfg="Trace_Issuance_C10.cfg")
